@@ -3,6 +3,7 @@
 //!
 //! case line:  `<BUF> <HEX> <SCHED> ; <op> ; <op> ; ...`
 //! result:     `I <raw> | V <view>`   (view = raw + `!sched:` / `!oracle:` markers)
+//! several live readers on one thread, interleaved: see multi.rs (case lines with `+` in the header)
 #[path = "../../common/mod.rs"]
 mod common;
 
@@ -116,6 +117,8 @@ macro_rules! with_atom {
 
 mod big;
 mod gen;
+mod mgen;
+mod multi;
 mod streams;
 
 // ---------------------------------------------------------------------------------------------
@@ -236,7 +239,7 @@ fn dyn_set(p: &[Atom]) {
     });
 }
 
-fn dyn_clear() {
+pub fn dyn_clear() {
     dyn_set(&[]);
 }
 
@@ -277,7 +280,7 @@ pub enum Item {
 
 pub type Sched = Vec<(Item, u64)>;
 
-struct Source<'a> {
+pub struct Source<'a> {
     data: &'a [u8],
     pos: usize,
     items: &'a [(Item, u64)],
@@ -289,7 +292,7 @@ struct Source<'a> {
 }
 
 impl<'a> Source<'a> {
-    fn new(data: &'a [u8], items: &'a [(Item, u64)]) -> Self {
+    pub fn new(data: &'a [u8], items: &'a [(Item, u64)]) -> Self {
         Source { data, pos: 0, items, idx: 0, used: 0, pending: 0, calls: 0, first_room: None }
     }
 
@@ -469,7 +472,7 @@ pub fn fmt_sched(s: &[(Item, u64)]) -> String {
     o
 }
 
-fn parse_hex(s: &str) -> Option<Vec<u8>> {
+pub fn parse_hex(s: &str) -> Option<Vec<u8>> {
     if s == "-" {
         return Some(Vec::new());
     }
@@ -540,7 +543,7 @@ macro_rules! by_arity {
     };
 }
 
-fn run_op(reader: &mut Reader, op: &Op) -> String {
+pub fn run_op(reader: &mut Reader, op: &Op) -> String {
     let mut o = String::new();
     match op {
         Op::R(a) => with_atom!(*a, T, reader.read::<T>().show(&mut o)),
@@ -575,12 +578,12 @@ fn run_op(reader: &mut Reader, op: &Op) -> String {
     o
 }
 
-struct Exec {
-    results: Vec<String>,
-    panicked: bool,
+pub struct Exec {
+    pub results: Vec<String>,
+    pub panicked: bool,
 }
 
-fn exec(data: &[u8], sched: &[(Item, u64)], ops: &[Op]) -> Exec {
+pub fn exec(data: &[u8], sched: &[(Item, u64)], ops: &[Op]) -> Exec {
     let mut src = Source::new(data, sched);
     let mut results = Vec::with_capacity(ops.len());
     let mut panicked = false;
@@ -601,7 +604,7 @@ fn exec(data: &[u8], sched: &[(Item, u64)], ops: &[Op]) -> Exec {
     Exec { results, panicked }
 }
 
-fn join_results(r: &[String]) -> String {
+pub fn join_results(r: &[String]) -> String {
     if r.is_empty() {
         "-".to_string()
     } else {
@@ -805,6 +808,17 @@ pub fn oracle_run(data: &[u8], ops: &[Op]) -> Vec<String> {
 // ---------------------------------------------------------------------------------------------
 
 fn run_case(line: &str) -> String {
+    // several live readers: `<BUF> <hex0> <sched0> + <hex1> <sched1> ... ; <k>.<op> ; ...` (multi.rs)
+    {
+        let mut parts = line.split(';').map(|p| p.trim());
+        let hdr: Vec<&str> = parts.next().unwrap_or("").split_whitespace().collect();
+        if hdr.len() >= 4 && hdr[3] == "+" {
+            return match multi::parse_multi(&hdr, parts) {
+                Some(c) => multi::run_multi(&c),
+                None => "I INVALID | V INVALID".to_string(),
+            };
+        }
+    }
     let case = match parse_case(line) {
         Some(c) => c,
         None => return "I INVALID | V INVALID".to_string(),
